@@ -50,7 +50,10 @@ Lehmer(items, idx) ==
            q == idx \div f
        IN <<items[q + 1]>> \o Lehmer(DropAt(items, q + 1), idx % f)
 Mix(seed, pos) == seed * 7 + pos * 3 + seed * pos + 1
-AnsPerm(seed, pos, m) == Lehmer(Range(1, m), Mix(seed, pos) % Fact(m))
+\* (32-bit integers: beyond 8! a rotation stands for "some fixed arrangement")
+AnsPerm(seed, pos, m) ==
+  IF m <= 8 THEN Lehmer(Range(1, m), Mix(seed, pos) % Fact(m))
+  ELSE [i \in 1..m |-> ((i - 1 + Mix(seed, pos)) % m) + 1]
 AnsChoice(seed, pos, k) == Mix(seed, pos) % k
 
 ApplyPerm(a, sg) == [i \in 1..Len(a) |-> a[sg[i]]]
